@@ -151,6 +151,28 @@ namespace c09
             }
             v = igris::deserialize<T>(r.st);
             T one = igris::deserialize<T>(rest);
+            {
+                // the bounded reader built from a plain char array holding exactly the remaining bytes (a receive frame)
+                auto via_array = [&](auto tag) {
+                    char frame[decltype(tag)::value];
+                    memcpy(frame, rest.data(), sizeof frame);
+                    igris::deserialize_buffer_storage fs(frame);
+                    if ((size_t)fs.avail() != sizeof frame) kit::violate("C09/readers-disagree@serializer", "a reader storage built from a char[%zu] offers %d bytes", sizeof frame, fs.avail());
+                    T w = igris::deserialize<T>(fs);
+                    if (!Ref<T>::eq(v, w)) kit::violate("C09/readers-disagree@serializer", "decoding from a char[%zu] frame gives another value than decoding the same bytes from a buffer", sizeof frame);
+                };
+                switch (left)
+                {
+                case 1: via_array(std::integral_constant<size_t, 1>()); break;
+                case 2: via_array(std::integral_constant<size_t, 2>()); break;
+                case 4: via_array(std::integral_constant<size_t, 4>()); break;
+                case 6: via_array(std::integral_constant<size_t, 6>()); break;
+                case 8: via_array(std::integral_constant<size_t, 8>()); break;
+                case 12: via_array(std::integral_constant<size_t, 12>()); break;
+                case 16: via_array(std::integral_constant<size_t, 16>()); break;
+                default: break;
+                }
+            }
             if (!Ref<T>::eq(v, one)) kit::violate("C09/readers-disagree@serializer", "igris::deserialize<T>(string) and igris::deserialize<T>(storage) decode different values from the same bytes");
         }
     };
